@@ -507,8 +507,17 @@ func runControlled(cfg *lib.Config, res *lib.Result, rng *lib.Rng) {
 		e.files = append(e.files, e.casesFile())
 	}
 	exhaustive, truncated, schedules := 0, 0, 0
+	// the cap per program applies while the part is within its budget of runs; afterwards programs get the quick cap
+	maxRuns := 60000
+	if cfg.Thorough() {
+		maxRuns = 600000
+	}
 	explore := func(c caseT, family string) {
-		n, complete := e.exploreAll(c, perProgram, family)
+		limit := perProgram
+		if e.nRuns > maxRuns && limit > 1500 {
+			limit = 1500
+		}
+		n, complete := e.exploreAll(c, limit, family)
 		schedules += n
 		if complete {
 			exhaustive++
@@ -551,6 +560,7 @@ func runControlled(cfg *lib.Config, res *lib.Result, rng *lib.Rng) {
 	res.Extra["programs_with_all_schedules_explored"] = exhaustive
 	res.Extra["programs_truncated_at_cap"] = truncated
 	res.Extra["schedules_per_program_cap"] = perProgram
+	res.Extra["schedules_budget_after_which_the_cap_is_1500"] = maxRuns
 	res.Extra["schedules_run"] = e.nRuns
 	if stuck() {
 		res.Extra["exploration_cut_short"] = fmt.Sprintf("%d runs did not finish (each one is reported as a violation); no further runs were started", unfinishedRuns)
